@@ -95,6 +95,13 @@ CLAIMED = {
             "accept the text and the parsed structure (clusters, element nodes per unified record and cluster, generic "
             "nodes, relation paths, n-ary legs, annotation tables, HTML-like label skeletons and texts) must equal the "
             "expectation.", TECH + "; Graphviz as independent DOT reader", NOTE + "; Graphviz 2.43 is trusted as DOT and HTML-like label parser"),
+    "C16": ("Full product of 12 documents (non-ASCII identifiers and values, bundles, 20 kB string; inside the C01/C02/"
+            "C07 spaces) x 4 formats x 4 destinations (returned str, text stream, binary stream, path) compared "
+            "pairwise (bytes = UTF-8 of the text; XML by canonical form), then x 7 sources (content str/bytes, text/"
+            "binary stream seekable and non-seekable, path) x up to 4 readers (deserialize, prov.read with format in "
+            "either case, prov.read without format - an exploration of the stream position its detection attempts "
+            "leave behind); PROV-N must not be read back.", "exhaustive enumeration of the finite product of documents, "
+            "formats, destination kinds, source kinds and readers on the real API (environment-answer enumeration)", NOTE),
 }
 
 NA = {}
